@@ -6,6 +6,7 @@ import shutil
 import tempfile
 
 import h5py
+import numpy as np
 from hypothesis import strategies as st
 
 from . import compat
@@ -39,6 +40,8 @@ value = st.one_of(
     st.builds(lambda v: {"t": "void", "v": v}, _hex.filter(lambda h: h not in ("", "7f"))),
     # opaque scalars as 0-d arrays, including the deletion marker's own byte (refused loudly or stored visibly)
     st.builds(lambda v: {"t": "void0", "v": v}, st.sampled_from(["7f", "7f", "7f00", "00", "61", "7e"])),
+    # a compound scalar with a single one-byte field: the same byte, but not the reserved opaque value
+    st.builds(lambda v: {"t": "cmp0", "v": v}, st.sampled_from(["7f", "7f", "7e", "00"])),
     st.builds(lambda v, dt: {"t": "arr", "dt": dt, "v": v},
               st.one_of(st.lists(st.integers(0, 9), max_size=3),
                         st.lists(st.lists(st.integers(0, 9), min_size=2, max_size=2), min_size=1, max_size=3)),
@@ -227,6 +230,9 @@ def bind(op, tree):
         p = withattrs[op[1] % len(withattrs)]
         keys = sorted(tree.lookup(p).attrs)
         key = keys[op[2] % len(keys)]
+        if (op[1] + op[2]) % 2:  # or: overwrite it (maybe a value of an older container), then the refused write
+            return [dict(op="setattr", abs=p, key=key, v={"t": "int", "v": 424242}, macro="badattr"),
+                    dict(op="setattr", abs=p, key=key, v={"t": "bigattr"}, macro="badattr")]
         return [dict(op="delattr", abs=p, key=key, macro="badattr"),
                 dict(op="setattr", abs=p, key=key, v={"t": "bigattr"}, macro="badattr")]
     if kind == "revive":  # something new at (or below) a path that was deleted or moved away earlier
@@ -335,6 +341,18 @@ def apply_real(root, b):
     if o in ("setattr", "delattr"):
         node = root if b["abs"] == "/" else root[b["abs"]]
         if o == "setattr":
+            if b["v"].get("t") == "bigattr" and isinstance(root, h5py.File) and b["key"] in node.attrs:
+                # plain h5py is not atomic here: it removes the old attribute before the new value is refused. The
+                # reference is the tree of the successful operations, so put the old value back on the plain tree.
+                aid = node.attrs.get_id(b["key"])
+                old = node.attrs[b["key"]]
+                old = np.asarray(old).astype(aid.dtype) if isinstance(old, np.generic) else old
+                try:
+                    node.attrs[b["key"]] = realize(b["v"])
+                finally:
+                    if b["key"] not in node.attrs:
+                        node.attrs[b["key"]] = old
+                return
             node.attrs[b["key"]] = realize(b["v"])
         else:
             del node.attrs[b["key"]]
